@@ -146,7 +146,9 @@ def compare(real, model):
     if real["error"] == "syntax":
         if model.get("error") != "syntax":
             return f"real SyntaxError {real['kind']}, model: {json.dumps(model)[:200]}"
-        if real["kind"] != model["kind"]:
+        # the kind is read off the message text; a message the table does not know (reworded) is compared by class and
+        # caret positions only
+        if not real["kind"].startswith("unknown:") and real["kind"] != model["kind"]:
             return f"error kinds differ: real {real['kind']} model {model['kind']}"
         if real["pos"] != model["pos"] and real["pos"] not in model.get("alts", []):
             return f"caret positions differ ({real['kind']}): real {real['pos']} model {model['pos']} alts {model.get('alts')}"
